@@ -55,14 +55,28 @@ let () =
       let dm' = String.concat "/" (List.map (zs ".") (dist_matrix g)) in
       if dm <> dm' || ec <> zs "." (ecc_ref g) || di <> string_of_int (int_of_z (diam_ref g))
          || ra <> string_of_int (int_of_z (rad_ref g)) then Buffer.add_string buf "model!=ref ";
-      Buffer.add_string buf (Printf.sprintf "n=%d m=%d D=%s ec=%s di=%s ra=%s cc=%s" n !m dm ec di ra
-        (lists (List.map (List.map int_of_nat) (comps_ref g))));
+      (* models of ConnectedComponents (sorted: the order of discovery is not determined) and of
+         ConnectedComponent(v) for every v (must be the member of cc that contains v) *)
+      let cc_ref = List.map (List.map int_of_nat) (comps_ref g) in
+      let cc = match connected_components_go g with
+        | Done cs -> lists (List.sort compare (List.map (List.map int_of_nat) cs))
+        | Panic -> "panic" | Fuel -> "fuel" in
+      List.iter (fun v ->
+          match connected_component_go g v with
+          | Done c -> if not (List.mem (List.map int_of_nat c) cc_ref && List.mem v c) then Buffer.add_string buf "model!=ref "
+          | _ -> Buffer.add_string buf "model-panic ") vs;
+      if cc <> lists cc_ref then Buffer.add_string buf "model!=ref ";
+      Buffer.add_string buf (Printf.sprintf "n=%d m=%d D=%s ec=%s di=%s ra=%s cc=%s" n !m dm ec di ra cc);
+      (* Girth: the model value goes to the strict part (only its upper-bound half is proved);
+         the projected gi is the proved reference, computed at level 1 *)
+      let gmodel = out (fun z -> string_of_int (int_of_z z)) (girth_go g) in
+      if level >= 1 && gmodel <> string_of_int (int_of_z (zgirth g)) then Buffer.add_string buf " girthmodel!=ref";
       if level >= 1 then begin
         let blocks = List.sort compare (List.map (List.map int_of_nat) (blocks_ref g)) in
         Buffer.add_string buf (Printf.sprintf " gi=%d bl=%s ar=%s cy=%s ic=%s ip=%s"
           (int_of_z (zgirth g)) (lists blocks) (nats "." (artic_ref g))
           (nats "." (cycles_ref g)) (nats "." (icycles_ref g)) (nats "." (ipaths_ref g)))
       end;
-      print_endline (Buffer.contents buf)
+      print_endline (Buffer.contents buf ^ " ## gi=" ^ gmodel)
     done
   with End_of_file -> ()
